@@ -58,13 +58,24 @@ from workloads import gen  # noqa: E402
 
 
 def index_box(mesh, sr):
-    """Index range of a region on the mesh lattice: (lo, hi, max distance from integers)."""
+    """Index range of a region on the mesh lattice: (lo, hi, distance from integers).
+
+    The distance is measured in cells, beyond what the coordinates themselves resolve
+    (16 ulp of the largest corner, per axis, in units of that axis' cell - rule R2)."""
     pmin = np.asarray(mesh.region.pmin, float)
     cell = np.asarray(mesh.cell, float)
+    res = 16 * EPS * np.maximum(np.abs(pmin), np.abs(np.asarray(mesh.region.pmax, float))) / cell
     lo = (np.asarray(sr.pmin, float) - pmin) / cell
     hi = (np.asarray(sr.pmax, float) - pmin) / cell
-    err = max(np.max(np.abs(lo - np.round(lo))), np.max(np.abs(hi - np.round(hi))))
+    err = max(np.max(np.abs(lo - np.round(lo)) - res), np.max(np.abs(hi - np.round(hi)) - res), 0.0)
     return np.round(lo).astype(int), np.round(hi).astype(int), float(err)
+
+
+def resolution(mesh):
+    """Largest coordinate spacing of the mesh's corners in units of the cell along that axis."""
+    cell = np.asarray(mesh.cell, float)
+    big = np.maximum(np.abs(np.asarray(mesh.region.pmin, float)), np.abs(np.asarray(mesh.region.pmax, float)))
+    return float(np.max(EPS * big / cell))
 
 
 def quiescent(ctx, mesh, where):
@@ -304,14 +315,23 @@ def transformations(ctx):
         if not ok:
             return
         mesh = res
+        if resolution(mesh) > 1e-8:
+            # the history has carried a fine axis to where its coordinates no longer resolve
+            # a hundred-millionth of its cell (a quarter turn about a point that is far away in
+            # units of the *other* axis' cell, after scalings by 1000 and 0.001): "on the
+            # lattice" cannot be decided there - not judged (rule R7), the history ends
+            ctx.event("transform.history_unresolvable")
+            return
         quiescent(ctx, mesh, what)
         good = list(mesh.subregions) == list(cur) and np.array_equal(mesh.n, n)
-        got = {}
+        got, errs = {}, {}
         for k in mesh.subregions:
             lo, hi, err = index_box(mesh, mesh.subregions[k])
             got[k] = (lo, hi)
+            errs[k] = err
             good = good and err < 1e-6 and np.array_equal(lo, cur[k][0]) and np.array_equal(hi, cur[k][1])
         ctx.check("C14.transform.index_ranges", good, got=got, expected=cur, n=mesh.n,
+                  distance_from_lattice_in_cells=errs, pmin=mesh.region.pmin, cell=mesh.cell,
                   expected_n=n, what=what)
         for k in mesh.subregions:
             # the mesh of a named subregion exists after every step, with the parent's cell
